@@ -292,10 +292,18 @@ func vForward(requestSide bool) {
 		sp.failureCodes[503] = struct{}{}
 	}
 	vNSends, vGzipCalls = 0, 0
+	// the media type of the backend's answer (varied for plain, uncoded answers)
+	respCT := ""
+	if !requestSide && !compress && backendCE == "" {
+		respCT = []string{"", "text/event-stream", "application/grpc"}[verifChoose("resp.contentType", 3)]
+	}
 	vOutcome = func(int) (*http.Response, error) {
 		h := http.Header{"X-Backend": []string{"b"}}
 		if backendCE != "" {
 			h.Set("Content-Encoding", backendCE)
+		}
+		if respCT != "" {
+			h.Set("Content-Type", respCT)
 		}
 		cl := declared
 		if chunked {
